@@ -80,11 +80,39 @@ def rule_filter_gate(ctx: Ctx, repo: Repo) -> None:
                 ctx.check([c[0] for c in calls] == [want], "R-C17.1", fi.fq,
                           "an admitted (or unfiltered) event is always dispatched to its handler",
                           construct=f"{lab}: dispatched {[c[0] for c in calls]}")
+    # the verdict used for an event is the filter's verdict about *that* code object, whatever was asked before
+    # (two code objects may share file name, first line and name: lambdas, one-line definitions, generated code)
+    c1 = R("code", co_name=K("step"), co_filename=K("/src/app.py"), co_firstlineno=K(10), ident=K(1))
+    c2 = R("code", co_name=K("step"), co_filename=K("/src/app.py"), co_firstlineno=K(10), ident=K(2))
+    for first, second in ((c1, c2), (c2, c1)):
+        verdicts = {1: True, 2: False}
+        carry = None
+        for code_obj in (first, second):
+            sc = TracerScenario(repo, "__call__", {"should_trace": S("filter")})
+            calls2: List[str] = []
+            def hook2(call, fname, fval, args, kwargs, st, _c=calls2, _sc=sc):
+                if isinstance(call.func, ast.Attribute) and call.func.attr in ("handle_call", "handle_return") and isinstance(fval, S) and fval.name == "self":
+                    _c.append(call.func.attr)
+                    return K(None)
+                if isinstance(call.func, ast.Attribute) and call.func.attr == "should_trace" and isinstance(fval, S) and fval.name == "self":
+                    a = args[0] if args else None
+                    return K(verdicts[a.fields["ident"].v]) if isinstance(a, R) and "ident" in a.fields else U("filter asked about something else")
+                return TracerScenario.call_hook(_sc, call, fname, fval, args, kwargs, st)
+            sc.ri.call_hook = hook2
+            outs = sc.run({pframe: R("frame", f_code=code_obj), pevent: K("call"), parg: S("arg")}, carry=carry)
+            if len(outs) != 1:
+                raise AnalysisError("__call__: forked")
+            carry = outs[0]
+            want = ["handle_call"] if verdicts[code_obj.fields["ident"].v] else []
+            ctx.check(calls2 == want, "R-C17.1", fi.fq,
+                      "each event is admitted or rejected by the filter's verdict about its own code object, also when another code object with the same file, line and name was seen before",
+                      construct=f"code object #{code_obj.fields['ident'].v} (filter says {verdicts[code_obj.fields['ident'].v]}) after #{first.fields['ident'].v}: dispatched {calls2}")
     # path form of the same fact: no CFG path leads from a rejecting verdict (false edge of the
     # filter call) to a handler call
     g = cfg_of(fi)
     filt_nodes = [x for x in g.stmts() if x.kind == "cond" and is_call_to(x.ast, "should_trace")]
-    ctx.floor("R-C17.1", "filter call used as a branch condition in __call__", len(filt_nodes), 1)
+    # (only applicable while the filter is called directly in a branch condition of __call__; if it moved into a
+    # helper the abstract interpretation above, which inlines helpers, is the deciding rule)
     for n, c in g.find_calls(lambda c: isinstance(c.func, ast.Attribute) and c.func.attr in ("handle_call", "handle_return") and dotted(c.func.value) == "self"):
         bad = False
         for x in filt_nodes:
